@@ -70,6 +70,26 @@ def opLhsOkAll : List Pat → Bool
      | q => opLhsOk q) && opLhsOkAll ps
 end
 
+/-- `every p op= v` reaches into lists and dicts only (the interpreter has no element update for
+vectors, bytes and strings there; it raises) -/
+def everyPathOk : Val → List Val → Bool
+  | _, [] => true
+  | v, i :: rest =>
+    match v with
+    | .list xs =>
+      (match pyIndex xs.length i with
+       | some k => (match xs[k]? with | some x => everyPathOk x rest | none => false)
+       | none => false)
+    | .stream xs =>
+      (match pyIndex xs.length i with
+       | some k => (match xs[k]? with | some x => everyPathOk x rest | none => false)
+       | none => false)
+    | .dict ks vs =>
+      (match dictFind i ks with
+       | some k => (match vs[k]? with | some x => everyPathOk x rest | none => false)
+       | none => false)
+    | _ => false
+
 /-- the typed-store meaning of a statement: the new environment, or `none` = the statement raises -/
 def specStmt (e : Env) : Stmt → Option Env
   | .assign p v => specAssign e p none v
@@ -92,7 +112,7 @@ def specStmt (e : Env) : Stmt → Option Env
       foldUpdate (fun e t =>
         match e.get? t.1 with
         | some c =>
-          (match getIndex c.val t.2 with
+          (match (if everyPathOk c.val t.2 then getIndex c.val t.2 else .throw) with
            | .ok old =>
              (match applyOp op old v with
               | .ok nv => specUpdate e t.1 t.2 nv
